@@ -11,6 +11,7 @@ import warnings
 import wn
 
 from .. import env, mk, runner, budget
+from ..observe import rel_lexicon, ili_of
 
 PROP = 'C11'
 
@@ -230,6 +231,30 @@ def check_one(lid, kind, rows, ext, V, obs, g):
                     elif got != ref_paths({k: [y for y in a if y != k] for k, a in adj.items()}, nm):
                         bad('relation_paths:differs', f'{nm}.relation_paths{args} = {got} expected '
                             f'{ref_paths({k: [y for y in a if y != k] for k, a in adj.items()}, nm)} [{tag}]')
+            # relation_paths(end=y): exactly the simple paths from the entity that stop at y
+            if kind != 's-ss':
+                adj_all = {}
+                for n2 in ents:
+                    adj_all[n2] = sorted({r[2] for r in rows if r[0] in scope and r[1] == n2 and lex_of[r[2]] in scope})
+                for ynm, y in ents.items():
+                    st, v = budget.call(lambda: list(e.relation_paths(end=y)), budget=500)
+                    if st != 'ok':
+                        bad(f'relation_paths(end):{st}', f'{nm}.relation_paths(end={ynm}) -> {v!r} [{kind}:{sname}]')
+                        continue
+                    got = sorted(tuple(name_of(x, lid) for x in p) for p in v)
+                    exp_p = []
+
+                    def rec(path, visited):
+                        last = path[-1] if path else nm
+                        if path and last == ynm:
+                            exp_p.append(tuple(path))
+                            return
+                        for z in adj_all.get(last, []):
+                            if z not in visited and z != nm:
+                                rec(path + [z], visited | {z})
+                    rec([], {nm})
+                    if got != sorted(exp_p):
+                        bad('relation_paths(end):differs', f'{nm}.relation_paths(end={ynm}) = {got} expected {sorted(exp_p)} [{kind}:{sname}]')
             # relation_map: keys distinct by (name, source, target, lexicon, dc:type)
             if kind == 's-ss':
                 continue
@@ -242,12 +267,12 @@ def check_one(lid, kind, rows, ext, V, obs, g):
                 exp_keys.setdefault((r[3], r[2], r[0], r[4].get('type')), []).append(r[4])
             got_keys = {}
             for rel, tgt in v.items():
-                k = (rel.name, name_of(tgt, lid), rel._lexicon, rel.subtype)
+                k = (rel.name, name_of(tgt, lid), rel_lexicon(rel), rel.subtype)
                 got_keys.setdefault(k, []).append(rel)
                 want_src = e.id
                 if rel.source_id != want_src or rel.target_id != tgt.id:
                     bad('relation_map:source-or-target-id', f'{nm}.relation_map(): {rel!r} -> {tgt!r} [{kind}:{sname}]')
-                if rel.lexicon().specifier() != rel._lexicon:
+                if rel.lexicon().specifier() != rel_lexicon(rel):
                     bad('relation_map:lexicon()', f'{rel!r}.lexicon() = {rel.lexicon().specifier()} [{kind}:{sname}]')
             obs.append(sorted(map(repr, got_keys)))
             if set(got_keys) != set(exp_keys) or any(len(x) != 1 for x in got_keys.values()):
